@@ -16,7 +16,7 @@ NUM _ZNK5gdstk4Vec26lengthEv(struct S_struct_gdstk__Vec2* vv) { NUM* v = (NUM*)v
 int main(void) {
   OI vx[N + 1], vy[N + 1]; NUM* pts = malloc(sizeof(NUM) * 2 * (N + 1));
   for (int i = 0; i < N; i++) { vx[i] = (OI)(2 * nd_range(-R, R)); vy[i] = (OI)(2 * nd_range(-R, R)); pts[2 * i] = NUM_OF_INT(vx[i]); pts[2 * i + 1] = NUM_OF_INT(vy[i]); }
-  Poly poly; memset(&poly, 0, sizeof poly); poly.f1.f0 = N; poly.f1.f1 = N; poly.f1.f2 = (void*)pts;
+  Poly poly = {0}; poly.f1.f0 = N; poly.f1.f1 = N; poly.f1.f2 = (void*)pts;
   OI copies = 1;
 #if REP == 1     /* rectangular repetition columns x rows: count = columns * rows */
   { uint64_t cols = 2, rows = 3; poly.f2.f0 = 1; uint64_t* u = (uint64_t*)&poly.f2.f1; u[0] = cols; u[1] = rows; NUM* sp = (NUM*)(u + 2); sp[0] = NUM_OF_INT(4); sp[1] = NUM_OF_INT(6); copies = (OI)(cols * rows); }
